@@ -338,9 +338,38 @@ def main(argv=None):
     if args.replay:
         with open(args.replay) as fh:
             rp = json.load(fh)
-        out = mod.replay(ctx, rp)
-        print(json.dumps(out, indent=1, default=str))
-        return 1 if out.get("fails") else 0
+        if rp.get("kind") == "unproved" or "case" not in rp:
+            # a replay file that names a theorem / translator / correspondence stream that no longer checks carries no
+            # concrete input: replaying it means re-running the check itself on the current tree
+            print(json.dumps({"replay": "no concrete input recorded (kind 'unproved'): re-running the quick check",
+                              "no_longer_checked": rp.get("no_longer_checks")}, indent=1, default=str)[:3000])
+            args.replay = None
+        else:
+            out = mod.replay(ctx, rp)
+            print(json.dumps(out, indent=1, default=str))
+            if not out.get("fails"):
+                return 0
+            # a failure that is a listed known finding is reported as such, exactly as in a normal run
+            f = {"stream": rp.get("stream"), "case": rp.get("case"), "what": rp.get("what"), "observed": rp.get("observed")}
+            for k in ("what", "observed", "details", "stream", "case"):
+                if out.get(k) is not None:
+                    f[k] = out[k]
+            if isinstance(out.get("oracle"), str):
+                f["what"] = out["oracle"]
+            matchers = getattr(mod, "KNOWN", {})
+            for kf in load_known():
+                if kf.get("property") != pid or kf.get("status") != "known":
+                    continue
+                pred = matchers.get(kf["id"])
+                for cand in (f, dict(rp, **{k: v for k, v in f.items() if v is not None})):
+                    try:
+                        if pred is not None and pred(cand):
+                            print(f"KNOWN-FINDING: property={pid} {kf['what']} [{kf['id']}; matched by this replay]")
+                            return 0
+                    except Exception:
+                        pass
+            print(f"VIOLATION property={pid} replay={args.replay}")
+            return 1
     t0 = time.time()
     if args.no_build:
         acc = {"obligations": 0, "discharged": 0, "names": [], "assumptions": {}, "problems": [], "build_s": 0}
